@@ -12,7 +12,9 @@ trace and do not mention the monitor's state or the model.  `sound_<clause>`: wh
 reports the clause at the step that extends `tr` by `r`, the predicate fails on `tr ++ [r]`.
 
 The monitor's state is history: `monAfter_exch` (its exchange list is `hist`), `lost_of_flag` /
-`wrong_of_flag` (its two flags were raised by a past reconnect that dropped / falsified the cursor).
+`wrong_of_flag` (its two flags were raised by a past reconnect that dropped / falsified the cursor),
+`ctx_of_flag` / `flag_of_ctx` (its `ctxEnded` flag says exactly that the caller's context has ended:
+a `cancel` record or an exchange of kind `ctx` lies in the past).
 -/
 set_option linter.unusedSectionVars false
 namespace ClientStream
@@ -61,6 +63,7 @@ theorem monAfter_snoc (s : Scn L) (m : Mon) (tr : Trace L) (r : Rec L) :
 theorem monStep_exch (s : Scn L) (m : Mon) (r : Rec L) : (monStep s m r).1.exch = stepExch s m.exch r := by
   cases r with
   | x r => simp only [monStep, stepExch]; split <;> rfl
+  | cancel t => rfl
   | delivered ls => rfl
   | fin o => rfl
   | leak b => rfl
@@ -142,6 +145,7 @@ theorem lost_of_flag (s : Scn L) (tr : Trace L) (h : (monAfter s {} tr).cursorLo
         · refine ⟨tr.length, x, get_snoc_len _ _, hk, h1, ?_⟩
           unfold cursorAtRec
           rw [histAt_snoc_len, ← monAfter_exch]; exact h2
+    | cancel t => exact (ih h).snoc _
     | delivered ls => exact (ih h).snoc _
     | fin o => exact (ih h).snoc _
     | leak b => exact (ih h).snoc _
@@ -165,9 +169,90 @@ theorem wrong_of_flag (s : Scn L) (tr : Trace L) (h : (monAfter s {} tr).wrongCu
         · refine ⟨tr.length, x, get_snoc_len _ _, hk, h1, ?_⟩
           unfold cursorAtRec
           rw [histAt_snoc_len, ← monAfter_exch]; exact h2
+    | cancel t => exact (ih h).snoc _
     | delivered ls => exact (ih h).snoc _
     | fin o => exact (ih h).snoc _
     | leak b => exact (ih h).snoc _
+
+/-- the caller's own context has ended somewhere in `tr`: it was cancelled while no request was in
+flight (a `cancel` record), or it ended while a reconnect attempt was in flight (an exchange of kind `ctx`) -/
+def CtxEnded (tr : Trace L) : Prop :=
+  ∃ i : Nat, (∃ t : Nat, tr[i]? = some (Rec.cancel t)) ∨ (∃ r : XRec, tr[i]? = some (Rec.x r) ∧ r.k ≠ 0 ∧ r.kind = .ctx)
+
+omit [BEq L] [LawfulBEq L] in
+theorem CtxEnded.snoc {tr : Trace L} (h : CtxEnded tr) (r : Rec L) : CtxEnded (tr ++ [r]) := by
+  obtain ⟨i, h⟩ := h
+  have hlt : i < tr.length := by
+    rcases Nat.lt_or_ge i tr.length with h' | h'
+    · exact h'
+    · rw [List.getElem?_eq_none h'] at h
+      rcases h with ⟨t, h⟩ | ⟨r, h, _⟩ <;> cases h
+  refine ⟨i, ?_⟩
+  rw [List.getElem?_append_left hlt]
+  exact h
+
+omit [BEq L] [LawfulBEq L] in
+theorem CtxEnded.of_snoc {tr : Trace L} {r : Rec L} (h : CtxEnded (tr ++ [r])) :
+    CtxEnded tr ∨ (∃ t, r = .cancel t) ∨ (∃ x : XRec, r = .x x ∧ x.k ≠ 0 ∧ x.kind = .ctx) := by
+  obtain ⟨i, h⟩ := h
+  rcases Nat.lt_or_ge i tr.length with hlt | hge
+  · left
+    rw [List.getElem?_append_left hlt] at h
+    exact ⟨i, h⟩
+  · right
+    rcases Nat.eq_or_lt_of_le hge with heq | hgt
+    · subst heq
+      rw [get_snoc_len] at h
+      rcases h with ⟨t, h⟩ | ⟨x, h, hk, hc⟩
+      · cases h; exact .inl ⟨t, rfl⟩
+      · cases h; exact .inr ⟨x, rfl, hk, hc⟩
+    · have : (tr ++ [r])[i]? = none := List.getElem?_eq_none (by simp; omega)
+      rw [this] at h
+      rcases h with ⟨t, h⟩ | ⟨x, h, _⟩ <;> cases h
+
+/-- **history invariant of the `ctxEnded` flag**: the flag is up exactly when the caller's context has ended -/
+theorem ctx_flag_iff (s : Scn L) (tr : Trace L) : (monAfter s {} tr).ctxEnded = true ↔ CtxEnded tr := by
+  refine snoc_induction (P := fun tr => (monAfter s {} tr).ctxEnded = true ↔ CtxEnded tr) ?_ ?_ tr
+  · constructor
+    · intro h; simp [monAfter] at h
+    · rintro ⟨i, h⟩; simp at h
+  · intro tr r ih
+    rw [monAfter_snoc]
+    constructor
+    · intro h
+      cases r with
+      | x x =>
+        simp only [monStep] at h
+        split at h
+        · exact (ih.1 h).snoc _
+        · rename_i hk
+          simp only [Bool.or_eq_true, beq_iff_eq] at h
+          rcases h with h | h
+          · exact (ih.1 h).snoc _
+          · exact ⟨tr.length, .inr ⟨x, get_snoc_len _ _, hk, h⟩⟩
+      | cancel t => exact ⟨tr.length, .inl ⟨t, get_snoc_len _ _⟩⟩
+      | delivered ls => exact (ih.1 h).snoc _
+      | fin o => exact (ih.1 h).snoc _
+      | leak b => exact (ih.1 h).snoc _
+    · intro h
+      rcases h.of_snoc with h | ⟨t, rfl⟩ | ⟨x, rfl, hk, hc⟩
+      · have := ih.2 h
+        cases r with
+        | x x => simp only [monStep]; split <;> simp [this]
+        | cancel t => rfl
+        | delivered ls => exact this
+        | fin o => exact this
+        | leak b => exact this
+      · rfl
+      · simp [monStep, hk, hc]
+
+theorem ctx_of_flag (s : Scn L) (tr : Trace L) (h : (monAfter s {} tr).ctxEnded = true) : CtxEnded tr :=
+  (ctx_flag_iff s tr).1 h
+
+theorem flag_of_noctx (s : Scn L) (tr : Trace L) (h : (monAfter s {} tr).ctxEnded = false) : ¬ CtxEnded tr := by
+  intro hc
+  rw [(ctx_flag_iff s tr).2 hc] at h
+  cases h
 
 /-! ## the clauses of the property, on traces -/
 
@@ -219,6 +304,10 @@ def P_delay (s : Scn L) (tr : Trace L) : Prop :=
     let w := delayWindow (if attempt = 1 then lastHint s ex else 0) attempt
     let d := (r.tStart - (ex.getLast?.map (·.tEnd)).getD 0) * 1000
     w.1 ≤ d + 1000 ∧ d < w.2 + 1000
+
+/-- the retry loop stops with the caller: once the caller's context has ended no further attempt is made -/
+def P_afterCancel (_s : Scn L) (tr : Trace L) : Prop :=
+  ∀ (i : Nat) (r : XRec), tr[i]? = some (Rec.x r) → r.k ≠ 0 → ¬ CtxEnded (tr.take i)
 
 /-! ### delivery: "every server message exactly once and in order, never a truncated event" -/
 
@@ -289,6 +378,10 @@ def P_statusNotReturned (s : Scn L) (tr : Trace L) : Prop :=
 /-- the error is one of the clean errors the client reports (harness classification) -/
 def P_unclassified (s : Scn L) (tr : Trace L) : Prop := EndP s tr fun o _ => o ≠ .st none
 def P_unexpectedError (s : Scn L) (tr : Trace L) : Prop := EndP s tr fun o _ => o ≠ .other
+
+/-- the call returns the error of the caller's context only if that context has ended -/
+def P_ctxLive (_s : Scn L) (tr : Trace L) : Prop :=
+  ∀ (i : Nat), tr[i]? = some (Rec.fin .ctx) → CtxEnded (tr.take i)
 
 /-- after Close no goroutine of the client stays blocked for ever -/
 def P_leak (_s : Scn L) (tr : Trace L) : Prop := ∀ (i : Nat) (b : Bool), tr[i]? = some (Rec.leak b) → b = false
@@ -400,7 +493,7 @@ theorem delivered_fires (s : Scn L) (m : Mon) (ls : List L) (c : Clause)
           · cases h
 
 /-- the condition under which `monEnd` can report a clause -/
-def EndFires (s : Scn L) (ex : List Exch) (o : EndObs) : Clause → Prop
+def EndFires (s : Scn L) (ex : List Exch) (ce : Bool) (o : EndObs) : Clause → Prop
   | .hang => o = .hang
   | .f5Decode => o = .decode
   | .f5Malformed => o = .malformed
@@ -417,11 +510,12 @@ def EndFires (s : Scn L) (ex : List Exch) (o : EndObs) : Clause → Prop
   | .statusNotReturned => ∃ c, o = .st (some c) ∧ lastIsStatus ex c = false
   | .unclassified => o = .st none
   | .unexpectedError => o = .other
+  | .ctxLive => o = .ctx ∧ ce = false
   | _ => False
 
 omit [BEq L] [LawfulBEq L] in
-theorem end_fires (s : Scn L) (ex : List Exch) (o : EndObs) (c : Clause)
-    (h : monEnd s ex o = some c) : EndFires s ex o c := by
+theorem end_fires (s : Scn L) (ex : List Exch) (ce : Bool) (o : EndObs) (c : Clause)
+    (h : monEnd s ex ce o = some c) : EndFires s ex ce o c := by
   cases o with
   | hang => simp [monEnd] at h; subst h; rfl
   | decode => simp [monEnd] at h; subst h; rfl
@@ -485,6 +579,13 @@ theorem end_fires (s : Scn L) (ex : List Exch) (o : EndObs) (c : Clause)
         split at h
         · cases h
         · cases h; rename_i hc; exact ⟨c', rfl, by simpa using hc⟩
+  | ctx =>
+    simp only [monEnd] at h
+    split at h
+    · cases h; rename_i hg; exact ⟨hg, by simp⟩
+    · split at h
+      · cases h
+      · cases h; rename_i hc; exact ⟨rfl, by simpa using hc⟩
   | other =>
     simp only [monEnd] at h
     split at h
@@ -498,20 +599,32 @@ variable (s : Scn L) (tr : Trace L)
 
 /-- the monitor reports `c` for an `x` record that extends `tr`: it is a reconnect, and `c`'s firing
 condition holds on the ground-truth history -/
-theorem fires_x (r : XRec) (c : Clause) (h : (monStep s (monAfter s {} tr) (.x r)).2 = some c) :
-    r.k ≠ 0 ∧ AttemptFires s (hist s tr) r.hdr r.tStart c := by
+theorem fires_x_any (r : XRec) (c : Clause) (h : (monStep s (monAfter s {} tr) (.x r)).2 = some c) :
+    r.k ≠ 0 ∧ ((monAfter s {} tr).ctxEnded = true ∧ c = .afterCancel ∨
+      (monAfter s {} tr).ctxEnded = false ∧ AttemptFires s (hist s tr) r.hdr r.tStart c) := by
   simp only [monStep] at h
   split at h
   · cases h
   · rename_i hk
-    exact ⟨hk, by rw [← monAfter_exch]; exact attempt_fires s _ _ _ c h⟩
+    refine ⟨hk, ?_⟩
+    split at h
+    · rename_i hc; cases h; exact .inl ⟨hc, rfl⟩
+    · rename_i hc
+      exact .inr ⟨by simpa using hc, by rw [← monAfter_exch]; exact attempt_fires s _ _ _ c h⟩
+
+theorem fires_x (r : XRec) (c : Clause) (h : (monStep s (monAfter s {} tr) (.x r)).2 = some c) (hne : c ≠ .afterCancel) :
+    r.k ≠ 0 ∧ AttemptFires s (hist s tr) r.hdr r.tStart c := by
+  obtain ⟨hk, h⟩ := fires_x_any s tr r c h
+  rcases h with ⟨_, hc⟩ | ⟨_, hf⟩
+  · exact absurd hc hne
+  · exact ⟨hk, hf⟩
 
 theorem fires_delivered (ls : List L) (c : Clause) (h : (monStep s (monAfter s {} tr) (.delivered ls)).2 = some c) :
     DeliveredFires s (monAfter s {} tr) ls c := delivered_fires s _ ls c h
 
 theorem fires_fin (o : EndObs) (c : Clause) (h : (monStep s (monAfter s {} tr) (.fin o)).2 = some c) :
-    EndFires s (hist s tr) o c := by
-  rw [← monAfter_exch]; exact end_fires s _ o c h
+    EndFires s (hist s tr) (monAfter s {} tr).ctxEnded o c := by
+  rw [← monAfter_exch]; exact end_fires s _ _ o c h
 
 /-- position `tr.length` of `tr ++ [r]` -/
 theorem at_len (r : Rec L) : (tr ++ [r])[tr.length]? = some r ∧ histAt s (tr ++ [r]) tr.length = hist s tr :=
@@ -519,7 +632,7 @@ theorem at_len (r : Rec L) : (tr ++ [r])[tr.length]? = some r ∧ histAt s (tr +
 
 theorem sound_f18NoHeader (r : XRec) (h : (monStep s (monAfter s {} tr) (.x r)).2 = some .f18NoHeader) :
     ¬ P_f18NoHeader s (tr ++ [.x r]) ∧ ¬ P_lastId s (tr ++ [.x r]) := by
-  obtain ⟨hk, hn, hc⟩ := fires_x s tr r _ h
+  obtain ⟨hk, hn, hc⟩ := fires_x s tr r _ h nofun
   obtain ⟨hi, hh⟩ := at_len s tr (.x r)
   have h1 : ¬ P_f18NoHeader s (tr ++ [.x r]) := fun hP =>
     hP tr.length r hi hk (by unfold cursorAtRec; rw [hh]; exact hc) hn
@@ -527,7 +640,7 @@ theorem sound_f18NoHeader (r : XRec) (h : (monStep s (monAfter s {} tr) (.x r)).
 
 theorem sound_f5UnknownId (r : XRec) (h : (monStep s (monAfter s {} tr) (.x r)).2 = some .f5UnknownId) :
     ¬ P_f5UnknownId s (tr ++ [.x r]) := by
-  obtain ⟨hk, hd, hhd, hf⟩ := fires_x s tr r _ h
+  obtain ⟨hk, hd, hhd, hf⟩ := fires_x s tr r _ h nofun
   obtain ⟨hi, _⟩ := at_len s tr (.x r)
   intro hP
   obtain ⟨it, hit, hraw, hid⟩ := hP tr.length r hd hi hk hhd
@@ -537,7 +650,7 @@ theorem sound_f5UnknownId (r : XRec) (h : (monStep s (monAfter s {} tr) (.x r)).
 
 theorem sound_notLast (r : XRec) (h : (monStep s (monAfter s {} tr) (.x r)).2 = some .notLast) :
     ¬ P_lastId s (tr ++ [.x r]) := by
-  obtain ⟨hk, hne⟩ := fires_x s tr r _ h
+  obtain ⟨hk, hne⟩ := fires_x s tr r _ h nofun
   obtain ⟨hi, hh⟩ := at_len s tr (.x r)
   intro hP
   apply hne
@@ -548,7 +661,7 @@ theorem sound_notLast (r : XRec) (h : (monStep s (monAfter s {} tr) (.x r)).2 = 
 
 theorem sound_f5IncompleteId (r : XRec) (h : (monStep s (monAfter s {} tr) (.x r)).2 = some .f5IncompleteId) :
     ¬ P_f5IncompleteId s (tr ++ [.x r]) := by
-  obtain ⟨hk, hd, j, hhd, hf, hnj⟩ := fires_x s tr r _ h
+  obtain ⟨hk, hd, j, hhd, hf, hnj⟩ := fires_x s tr r _ h nofun
   obtain ⟨hi, hh⟩ := at_len s tr (.x r)
   intro hP
   obtain ⟨j', hf', hj'⟩ := hP tr.length r hd hi hk hhd
@@ -560,7 +673,7 @@ theorem sound_f5IncompleteId (r : XRec) (h : (monStep s (monAfter s {} tr) (.x r
 theorem sound_unresumableReconnect (r : XRec)
     (h : (monStep s (monAfter s {} tr) (.x r)).2 = some .unresumableReconnect) :
     ¬ P_unresumableReconnect s (tr ++ [.x r]) := by
-  obtain ⟨hk, hsa, hc⟩ := fires_x s tr r _ h
+  obtain ⟨hk, hsa, hc⟩ := fires_x s tr r _ h nofun
   obtain ⟨hi, hh⟩ := at_len s tr (.x r)
   intro hP
   apply hP tr.length r hi hk hsa
@@ -568,7 +681,7 @@ theorem sound_unresumableReconnect (r : XRec)
 
 theorem sound_afterStatus (r : XRec) (h : (monStep s (monAfter s {} tr) (.x r)).2 = some .afterStatus) :
     ¬ P_afterStatus s (tr ++ [.x r]) := by
-  obtain ⟨hk, hc⟩ := fires_x s tr r _ h
+  obtain ⟨hk, hc⟩ := fires_x s tr r _ h nofun
   obtain ⟨hi, hh⟩ := at_len s tr (.x r)
   intro hP
   have := hP tr.length r hi hk
@@ -577,7 +690,7 @@ theorem sound_afterStatus (r : XRec) (h : (monStep s (monAfter s {} tr) (.x r)).
 
 theorem sound_fruitlessExceeded (r : XRec) (h : (monStep s (monAfter s {} tr) (.x r)).2 = some .fruitlessExceeded) :
     ¬ P_fruitlessExceeded s (tr ++ [.x r]) := by
-  obtain ⟨hk, hc⟩ := fires_x s tr r _ h
+  obtain ⟨hk, hc⟩ := fires_x s tr r _ h nofun
   obtain ⟨hi, hh⟩ := at_len s tr (.x r)
   intro hP
   have := hP tr.length r hi hk
@@ -586,7 +699,7 @@ theorem sound_fruitlessExceeded (r : XRec) (h : (monStep s (monAfter s {} tr) (.
 
 theorem sound_connectExceeded (r : XRec) (h : (monStep s (monAfter s {} tr) (.x r)).2 = some .connectExceeded) :
     ¬ P_connectExceeded s (tr ++ [.x r]) := by
-  obtain ⟨hk, hc⟩ := fires_x s tr r _ h
+  obtain ⟨hk, hc⟩ := fires_x s tr r _ h nofun
   obtain ⟨hi, hh⟩ := at_len s tr (.x r)
   intro hP
   have := hP tr.length r hi hk
@@ -596,7 +709,7 @@ theorem sound_connectExceeded (r : XRec) (h : (monStep s (monAfter s {} tr) (.x 
 theorem sound_delay (r : XRec) (d lo hi attempt : Nat) (hint : Int)
     (h : (monStep s (monAfter s {} tr) (.x r)).2 = some (.delay d lo hi attempt hint)) :
     ¬ P_delay s (tr ++ [.x r]) := by
-  obtain ⟨hk, hd, hw, hc⟩ := fires_x s tr r _ h
+  obtain ⟨hk, hd, hw, hc⟩ := fires_x s tr r _ h nofun
   obtain ⟨hi', hh⟩ := at_len s tr (.x r)
   intro hP
   have := hP tr.length r hi' hk
@@ -604,6 +717,16 @@ theorem sound_delay (r : XRec) (d lo hi attempt : Nat) (hint : Int)
   rw [← hw, ← hd] at this
   simp only at this
   omega
+
+theorem sound_afterCancel (r : XRec) (h : (monStep s (monAfter s {} tr) (.x r)).2 = some .afterCancel) :
+    ¬ P_afterCancel s (tr ++ [.x r]) := by
+  obtain ⟨hk, h⟩ := fires_x_any s tr r _ h
+  rcases h with ⟨hc, _⟩ | ⟨_, hf⟩
+  · intro hP
+    have := hP tr.length r (get_snoc_len _ _) hk
+    rw [take_snoc_len] at this
+    exact this (ctx_of_flag s tr hc)
+  · exact hf.elim
 
 theorem sound_foreign (ls : List L) (h : (monStep s (monAfter s {} tr) (.delivered ls)).2 = some .foreign) :
     ¬ P_foreign s (tr ++ [.delivered ls]) := by
@@ -751,6 +874,15 @@ theorem sound_unclassified (o : EndObs) (h : (monStep s (monAfter s {} tr) (.fin
 theorem sound_unexpectedError (o : EndObs) (h : (monStep s (monAfter s {} tr) (.fin o)).2 = some .unexpectedError) :
     ¬ P_unexpectedError s (tr ++ [.fin o]) := fun hP => endP_at s tr o _ hP (fires_fin s tr o _ h)
 
+theorem sound_ctxLive (o : EndObs) (h : (monStep s (monAfter s {} tr) (.fin o)).2 = some .ctxLive) :
+    ¬ P_ctxLive s (tr ++ [.fin o]) := by
+  obtain ⟨ho, hc⟩ := fires_fin s tr o _ h
+  subst ho
+  intro hP
+  have := hP tr.length (get_snoc_len _ _)
+  rw [take_snoc_len] at this
+  exact flag_of_noctx s tr hc this
+
 theorem sound_leak (b : Bool) (h : (monStep s (monAfter s {} tr) (.leak b)).2 = some .leak) :
     ¬ P_leak s (tr ++ [.leak b]) := by
   intro hP
@@ -761,12 +893,19 @@ theorem sound_leak (b : Bool) (h : (monStep s (monAfter s {} tr) (.leak b)).2 = 
 /-- every clause is reported by the record kind it belongs to, and by no other -/
 theorem clause_kinds (r : Rec L) (c : Clause) (h : (monStep s (monAfter s {} tr) r).2 = some c) :
     match r with
-    | .x x => x.k ≠ 0 ∧ AttemptFires s (hist s tr) x.hdr x.tStart c
+    | .x x => x.k ≠ 0 ∧ (CtxEnded tr ∧ c = .afterCancel ∨ ¬ CtxEnded tr ∧ AttemptFires s (hist s tr) x.hdr x.tStart c)
+    | .cancel _ => False
     | .delivered ls => DeliveredFires s (monAfter s {} tr) ls c
-    | .fin o => EndFires s (hist s tr) o c
+    | .fin o => EndFires s (hist s tr) (monAfter s {} tr).ctxEnded o c
     | .leak b => b = true ∧ c = .leak := by
   cases r with
-  | x x => exact fires_x s tr x c h
+  | x x =>
+    obtain ⟨hk, h⟩ := fires_x_any s tr x c h
+    refine ⟨hk, ?_⟩
+    rcases h with ⟨hc, he⟩ | ⟨hc, hf⟩
+    · exact .inl ⟨ctx_of_flag s tr hc, he⟩
+    · exact .inr ⟨flag_of_noctx s tr hc, hf⟩
+  | cancel t => simp [monStep] at h
   | delivered ls => exact fires_delivered s tr ls c h
   | fin o => exact fires_fin s tr o c h
   | leak b =>
@@ -792,19 +931,23 @@ def xk (k : Nat) (kind : AKind) (f : Option Nat) (t : Nat) (hdr : Option Bytes) 
 /-- the clause reported for `r` after `tr` -/
 def fired (s : Scn Nat) (tr : Trace Nat) (r : Rec Nat) : Option Clause := (monStep s (monAfter s {} tr) r).2
 
-example : fired exScn [x0 16] (xk 1 .terr none 1501000 none) = some .f18NoHeader := by decide
-example : fired exScn [x0 16] (xk 1 .terr none 1501000 (some [50])) = some .f5UnknownId := by decide
-example : fired exScn [x0 33] (xk 1 .terr none 1501000 (some [49])) = some .notLast := by decide
-example : fired exScn [x0 16] (xk 1 .terr none 1501000 (some [50, 50])) = some .f5IncompleteId := by decide
-example : fired exScn [x0 10] (xk 1 .terr none 1501000 none) = some .unresumableReconnect := by decide
-example : fired exScn [x0 16, xk 1 (.st 503) none 1501000 (some [49])] (xk 2 .terr none 3001000 (some [49])) =
+example : fired exScn [x0 16] (xk 1 (.terr {}) none 1501000 none) = some .f18NoHeader := by decide
+example : fired exScn [x0 16] (xk 1 (.terr {}) none 1501000 (some [50])) = some .f5UnknownId := by decide
+example : fired exScn [x0 33] (xk 1 (.terr {}) none 1501000 (some [49])) = some .notLast := by decide
+example : fired exScn [x0 16] (xk 1 (.terr {}) none 1501000 (some [50, 50])) = some .f5IncompleteId := by decide
+example : fired exScn [x0 10] (xk 1 (.terr {}) none 1501000 none) = some .unresumableReconnect := by decide
+example : fired exScn [x0 16, xk 1 (.st 503) none 1501000 (some [49])] (xk 2 (.terr {}) none 3001000 (some [49])) =
     some .afterStatus := by decide
 example : fired exScn [x0 16, xk 1 (.ok 0 .eof) (some 1) 1501000 (some [49]), xk 2 (.ok 0 .eof) (some 1) 3001000 (some [49]),
-    xk 3 (.ok 0 .eof) (some 1) 4501000 (some [49])] (xk 4 .terr none 6001000 (some [49])) = some .fruitlessExceeded := by decide
-example : fired exScn [x0 16, xk 1 .terr none 1501000 (some [49]), xk 2 .terr none 3501000 (some [49])]
-    (xk 3 .terr none 7001000 (some [49])) = some .connectExceeded := by decide
-example : fired exScn [x0 16] (xk 1 .terr none 1010 (some [49])) =
+    xk 3 (.ok 0 .eof) (some 1) 4501000 (some [49])] (xk 4 (.terr {}) none 6001000 (some [49])) = some .fruitlessExceeded := by decide
+example : fired exScn [x0 16, xk 1 (.terr {}) none 1501000 (some [49]), xk 2 (.terr {}) none 3501000 (some [49])]
+    (xk 3 (.terr {}) none 7001000 (some [49])) = some .connectExceeded := by decide
+example : fired exScn [x0 16] (xk 1 (.terr {}) none 1010 (some [49])) =
     some (.delay 10000 1000000000 2000000000 1 0) := by decide
+example : fired exScn [x0 16, xk 1 .ctx none 1501000 (some [49])] (xk 2 (.ok 100 .eof) (some 1) 3501000 (some [49])) =
+    some .afterCancel := by decide
+example : fired exScn [x0 16, .cancel 2000] (xk 1 (.terr { isDeadline := true }) none 1501000 (some [49])) =
+    some .afterCancel := by decide
 example : fired exScn [x0 16] (.delivered [7]) = some .foreign := by decide
 example : fired exScn [x0 16] (.delivered [1, 1]) = some .dupOrOrder := by decide
 example : fired exScnSa [x0 8] (.delivered [1]) = some .f5Truncated := by decide
@@ -828,11 +971,14 @@ example : fired exScn [x0 16] (.fin .sessionMissing) = some .sessionMissingNo404
 example : fired exScn [x0 16] (.fin (.st (some 503))) = some .statusNotReturned := by decide
 example : fired exScn [x0 16] (.fin (.st none)) = some .unclassified := by decide
 example : fired exScn [x0 16] (.fin .other) = some .unexpectedError := by decide
+example : fired exScn [x0 16] (.fin .ctx) = some .ctxLive := by decide
+example : fired exScn [x0 16, .cancel 2000] (.fin .ctx) = none := by decide
+example : fired exScn [x0 16, .cancel 2000] (.fin .hang) = some .hang := by decide
 example : fired exScn [x0 16] (.leak true) = some .leak := by decide
 
 /-- … and the predicates are not trivially false: they hold on the empty trace and, e.g., `P_lastId`
 on a trace with a correct resume request -/
-example : P_lastId exScn [x0 16, xk 1 .terr none 1501000 (some [49])] := by
+example : P_lastId exScn [x0 16, xk 1 (.terr {}) none 1501000 (some [49])] := by
   intro i r hi hk
   match i, hi with
   | 0, hi => simp [x0] at hi; subst hi; exact absurd rfl hk
